@@ -10,7 +10,7 @@ CONSTANTS
   StrK = 5
   ComClasses = {"q", "b", "s", "t", "a", "n", "p", "o"}
   ComK = 5
-  BigFams = {"str70k", "str40k", "str200k", "nums100k", "strs100k", "mix100k", "block70k", "line70k", "ws70k"}
+  BigFams = {"str70k", "str40k", "str200k", "str2m", "nums100k", "strs100k", "mix100k", "block70k", "line70k", "ws70k"}
   WalkMaxBody = 0
   WalkMaxCom = 0
   WalkMaxItems = 0
